@@ -189,6 +189,19 @@ func checkC07(e *Engine, r *Report) {
 				}
 				r.Check(ok, d.Lane+"."+d.Name()+" › foreign-lane fallthrough", e.Pos(d.Fn.Pos()), "every return reachable for the foreign lane forwards to next(ctx, tx, simulate)", why)
 			}
+			// a decorator that walks the message list must finish the walk before handing over:
+			// next()/the SDK decorator called from inside a loop skips the remaining messages
+			for _, l := range loopsOf(d.Fn) {
+				ok := true
+				var at token.Pos
+				for _, op := range ops {
+					if (op.kind == "next" || op.kind == "next-modified" || op.kind == "sdkdec") && op.call.Parent() == d.Fn && l.Body[op.call.Block()] && op.call.Block() != l.Header {
+						ok = false
+						at = op.call.Pos()
+					}
+				}
+				r.Check(ok, d.Lane+"."+d.Name()+" › loop finished before hand-over", e.Pos(l.Header.Instrs[0].Pos()), "no hand-over from inside the loop", "the chain is continued from inside a loop over the messages (at "+e.Pos(at)+"): the remaining messages are not examined")
+			}
 			if sensitive == 0 {
 				r.OK(d.Lane+"."+d.Name()+" › no lane-sensitive operation", e.Pos(d.Fn.Pos()), "decorator performs no lane-sensitive operation")
 			}
@@ -626,6 +639,25 @@ func checkAuthzScreen(e *Engine, r *Report) {
 				}
 			}
 			r.Check(okLvl, "checkDisabledMsgs › nested level threshold", e.Pos(test.Pos()), "URL test applies to every nested level ≥ 2", "the nested-message URL test is skipped for some nested level ≥ 2")
+		}
+	}
+	// (4b) every message is inspected: a nil (success) return is possible only after the loop over msgs is exhausted
+	{
+		loops := loopsOf(fn)
+		if len(loops) == 0 {
+			r.Bad("checkDisabledMsgs › loop over messages", pos, "no loop over the message list")
+		}
+		for _, l := range loops {
+			ok := true
+			var at token.Pos
+			for _, ret := range returnsFromInsideLoop(fn, l) {
+				if isSuccessReturn(fn, ret) {
+					ok = false
+					at = ret.Pos()
+				}
+			}
+			r.Check(ok, "checkDisabledMsgs › every message inspected", e.Pos(l.Header.Instrs[0].Pos()), "inside the loop only error returns; nil is returned after the loop is exhausted",
+				"a return that may carry a nil error leaves the loop in the middle of the message list (at "+e.Pos(at)+"): messages listed after it are never screened")
 		}
 	}
 	// (5) AnteHandle: next on the Cosmos lane only after checkDisabledMsgs(tx.GetMsgs(), 1) == nil
